@@ -110,21 +110,34 @@ def run(tier, seed):
     # with the dispatcher goroutines parked at host.emit.start; the switch CountOnce must be refuted
     dl_runs, dl_tot = [], dict(behaviours=0, steps=0, drift=0)
     work = vlib.scratch("c12dl-")
-    for mx, busy in ((1, 1), (2, 2), (3, 1)) if tier == "quick" else ((1, 1), (2, 1), (2, 2), (3, 1), (3, 2), (3, 3)):
-        nq, nd = (4, 4) if tier == "quick" else (5, 5)
-        c = dict(Max=mx, NQ=nq, D=nd, Callers=2, Busy=busy, CountOnce=False, Track=True)
-        ep = os.path.join(work, "dl_%d_%d.ndjson" % (mx, busy))
-        rd = vlib.run_tlc('DispatchLoop', dict(constants=c, invariants=['Capacity', 'WorkConserving', 'FIFO'], view='View', action_constraint='Emit'),
+    # (Max, Busy, NQ, D, Callers, Late): Late = 0 - the queue is fixed at the start; Late > 0 - receivers leave while
+    # their transfer runs, their transfer function returns later, others accept in between (F-C12-3)
+    if tier == "quick":
+        plans = ((1, 1, 4, 4, 2, 0), (2, 2, 4, 4, 2, 0), (3, 1, 4, 4, 2, 0), (2, 2, 1, 5, 3, 1), (1, 1, 2, 4, 2, 1))
+    else:
+        plans = ((1, 1, 5, 5, 2, 0), (2, 1, 5, 5, 2, 0), (2, 2, 5, 5, 2, 0), (3, 1, 5, 5, 2, 0), (3, 2, 5, 5, 2, 0), (3, 3, 5, 5, 2, 0),
+                 (2, 2, 1, 5, 3, 1), (1, 1, 2, 4, 2, 1), (2, 2, 2, 6, 3, 1), (2, 2, 1, 6, 3, 2), (3, 3, 1, 6, 3, 1))
+    for mx, busy, nq, nd, callers, late in plans:
+        c = dict(Max=mx, NQ=nq, D=nd, Callers=callers, Busy=busy, Late=late, CountOnce=False, TailUsesOwnCtx=False, Track=True)
+        ep = os.path.join(work, "dl_%d_%d_%d.ndjson" % (mx, busy, late))
+        rd = vlib.run_tlc('DispatchLoop', dict(constants=c, invariants=['Capacity', 'WorkConserving', 'FIFO', 'NoDeadStart'], view='View', action_constraint='Emit'),
                           workers=4, edges_path=ep, timeout=900)
         if rd['violated']:
             raise vlib.HarnessTrouble("DispatchLoop.tla violates its invariants:\n" + rd['violation_text'][:1500])
-        rn = vlib.run_tlc('DispatchLoop', dict(constants=dict(c, CountOnce=True), invariants=['Capacity'], view='View'), workers=4, want_edges=False, expect_violation=True)
-        if not rn['violated']:
-            raise vlib.HarnessTrouble("negative control CountOnce not refuted (Max=%d Busy=%d)" % (mx, busy))
-        dr = vlib.run_vh_sharded(['dispatch-loop', '-edges', ep, '-max', str(mx), '-nq', str(nq), '-busy', str(busy)], 4, timeout=1200)
+        if late == 0:
+            rn = vlib.run_tlc('DispatchLoop', dict(constants=dict(c, CountOnce=True), invariants=['Capacity'], view='View'), workers=4, want_edges=False, expect_violation=True)
+            if not rn['violated']:
+                raise vlib.HarnessTrouble("negative control CountOnce not refuted (Max=%d Busy=%d)" % (mx, busy))
+        elif busy >= 2:
+            rn = vlib.run_tlc('DispatchLoop', dict(constants=dict(c, TailUsesOwnCtx=True), invariants=['NoDeadStart'], view='View'), workers=4, want_edges=False, expect_violation=True)
+            if not rn['violated']:
+                raise vlib.HarnessTrouble("negative control TailUsesOwnCtx not refuted (Max=%d Busy=%d Late=%d)" % (mx, busy, late))
+        else:
+            rn = dict(violated=None)
+        dr = vlib.run_vh_sharded(['dispatch-loop', '-edges', ep, '-max', str(mx), '-nq', str(nq), '-busy', str(busy), '-late', str(late)], 8, timeout=1800)
         for viol in dr['violations']:
             v.violation(viol['sig'], viol.get('replay'))
-        dl_runs.append(dict(Max=mx, Busy=busy, NQ=nq, dispatchers=nd, states=rd['distinct'], transitions=rd['edges'], behaviours_replayed=dr['behaviours'], drift=dr['drift'], count_once_refuted=rn['violated']))
+        dl_runs.append(dict(Max=mx, Busy=busy, NQ=nq, Late=late, dispatchers=nd, states=rd['distinct'], transitions=rd['edges'], behaviours_replayed=dr['behaviours'], drift=dr['drift'], negative_control_refuted=rn['violated']))
         for k in dl_tot:
             dl_tot[k] += dr[k]
         if dr['drift']:
